@@ -450,6 +450,10 @@ class MemFs(VirtualFilestore):
     def add_dir(self, p):
         self.dirs.add(_pkey(p))
 
+    def __len__(self):
+        """container semantics (number of files): an empty user filestore is falsy - still the user's filestore"""
+        return len(self.files)
+
     def add_source_file(self, p, size, alt=False):
         """pristine file holding the first `size` bytes of the genuine content; alt=True: of an
         unrelated second content (source id ALT_SRC, checksum tokens Hs(type + ALT_CK, n))"""
@@ -644,6 +648,7 @@ class MemFs(VirtualFilestore):
     def calculate_checksum(self, checksum_type, file_path, size_to_verify, segment_len=4096):
         k = _pkey(file_path)
         self._rec("checksum", k, size_to_verify)
+        self._maybe_reject("checksum", file_path)
         if checksum_type == ChecksumType.NULL_CHECKSUM:
             return bytes(4)
         if k not in self.files:
